@@ -50,7 +50,8 @@ func init() {
 			fr.x.reached[tag] = true
 			return nil
 		},
-		zz + "ExpectPanic": func(fr *frame, a []Value) Value { fr.x.reached["__expect_panic__"] = true; return nil },
+		zz + "ExpectErrorPanic": func(fr *frame, a []Value) Value { fr.x.reached["__expect_error_panic__"] = true; return nil },
+		zz + "ExpectPanic":      func(fr *frame, a []Value) Value { fr.x.reached["__expect_panic__"] = true; return nil },
 		zz + "Note": func(fr *frame, a []Value) Value {
 			s := a[0].(Str)
 			if cs, ok := concreteString(s); ok {
@@ -82,6 +83,11 @@ func init() {
 			// abstract time tagged with its UnixNano value: sec field carries it, marker nsec
 			return Struct{x.f.Const(64, 0xffffffffffffffff), a[0].(*Term), (*Value)(nil)}
 		},
+		zz + "AllocLimit": func(fr *frame, a []Value) Value {
+			fr.x.allocLimit = int64(fr.x.asInt(fr, a[0], "AllocLimit"))
+			return nil
+		},
+		zz + "AllocEnd": func(fr *frame, a []Value) Value { fr.x.allocLimit = 0; return nil },
 		zz + "Symbolic": func(fr *frame, a []Value) Value { return fr.x.f.Bool(true) },
 		zz + "SameBacking": func(fr *frame, a []Value) Value {
 			s1, s2 := a[0].(Slice), a[1].(Slice)
